@@ -51,13 +51,19 @@ fn bulk_vs_single<I: Interpolate<i16>, const R: usize, const C: usize, const RC:
         }
         j += 1;
     }
-    kani::cover!(pay[0] != pay[1] && pay[0] != pay[RC - 1], "W: non-constant data");
+    kani::cover!(pay[0] != pay[RC - 1], "W: non-constant data");
 }
 
-//@ prop=C18,C01:thorough tier=quick mem=8 timeout=3600 flags=modelmap uses=cut inst="quantiles_axis_mut vs quantile_axis_mut, Midpoint, ArrayViewMut2<i16> 3x1 (one lane), Axis(0), qs = [0.25, 0.3, 0.3] (ascending, two q inside the same gap, a repeat)" bounds="i8-range payloads; unwind 12"
+//@ prop=C18,C01:thorough tier=quick mem=8 timeout=3600 flags=modelmap uses=cut inst="quantiles_axis_mut vs quantile_axis_mut, Midpoint, ArrayViewMut2<i16> 2x1 (one lane of 2), Axis(0), qs = [0.2, 0.5] (ascending, both inside the same gap)" bounds="i8-range payloads; unwind 8"
+#[kani::proof]
+#[kani::unwind(8)]
+fn c18_bulk_vs_single_midpoint() {
+    bulk_vs_single::<_, 2, 1, 2, 2>(&Midpoint, 0, 0, [0.2, 0.5]);
+}
+//@ prop=C18,C01 tier=thorough mem=8 timeout=5400 flags=modelmap uses=cut inst="quantiles_axis_mut vs quantile_axis_mut, Midpoint, ArrayViewMut2<i16> 3x1, Axis(0), qs = [0.25, 0.3, 0.3] (ascending, two q inside the same gap, a repeat)" bounds="i8-range payloads; unwind 12"
 #[kani::proof]
 #[kani::unwind(12)]
-fn c18_bulk_vs_single_midpoint() {
+fn c18_bulk_vs_single_midpoint_3x1() {
     bulk_vs_single::<_, 3, 1, 3, 3>(&Midpoint, 0, 0, [0.25, 0.3, 0.3]);
 }
 //@ prop=C18,C01 tier=thorough mem=10 timeout=7200 flags=modelmap uses=cut inst="quantiles_axis_mut vs quantile_axis_mut, Midpoint, ArrayViewMut2<i16> 3x2 F-order, Axis(0), qs = [0.25, 0.3, 0.75]" bounds="i8-range payloads; unwind 12"
